@@ -334,16 +334,18 @@ def haralick_features(cmats,
         feats[12] = np.sqrt(max(0,1 - np.exp( -2. * (HXY2 - feats[8]))))
 
         if compute_14th_feature:
-            # Square root of the second largest eigenvalue of the correlation matrix
-            # Probably the faster way to do this is just SVD the whole (likely rank deficient) matrix
-            # grab the second highest singular value . . . Instead, we just amputate the empty rows/cols and move on.
+            # Square root of the second largest eigenvalue of Haralick's matrix
+            #   Q(i,j) = sum_k p(i,k) p(j,k) / (p_x(i) p_y(k))
+            # Q = D_x^-1 P D_y^-1 P^T is similar to the symmetric matrix A A^T with
+            # A(i,k) = p(i,k) / sqrt(p_x(i) p_y(k)), which has the same eigenvalues.
+            # We amputate the empty rows/cols first.
             nzero_rc = px != 0
             nz_pmat = p[nzero_rc,:][:,nzero_rc] # Symmetric, so this is ok!
-            if nz_pmat.shape[0] > 2:
-                ccm = np.corrcoef(nz_pmat)
-                e_vals = np.linalg.eigvalsh(ccm)
+            if nz_pmat.shape[0] > 1:
+                A = nz_pmat / np.sqrt(np.outer(py[nzero_rc], px[nzero_rc]))
+                e_vals = np.linalg.eigvalsh(np.dot(A, A.T))
                 e_vals.sort()
-                feats[13] = np.sqrt(e_vals[-2])
+                feats[13] = np.sqrt(max(0, e_vals[-2]))
             else:
                 feats[13] = 0
         features.append(feats)
